@@ -28,25 +28,44 @@ class InlineLib(Hooks):
         return ex.depth < 8
 
 
-def walk_all(effs, loops=None, guards=None, stack=None):
+def _is_assert_failure(effs):
+    real = [y for y in effs if y["e"] not in ("exit",)]
+    return len(real) == 1 and real[0]["e"] == "call" and real[0].get("noreturn") and "assert" in real[0]["name"]
+
+
+def walk_all(effs, loops=None, guards=None, stack=None, pre=None):
+    """(effect, loops, guards, inline stack, preconditions); preconditions are the conditions of passed assertions"""
     loops = loops or []
-    guards = guards or []
+    guards = list(guards or [])
     stack = stack or []
+    pre = list(pre or [])
     for x in effs:
         e = x["e"]
         if e == "loop":
-            yield from walk_all(x["body"], loops + [x], guards, stack)
+            yield from walk_all(x["body"], loops + [x], guards, stack, pre)
         elif e == "while":
-            yield x, loops, guards, stack
-            yield from walk_all(x["body"], loops + [x], guards, stack)
+            yield x, loops, guards, stack, pre
+            yield from walk_all(x["body"], loops + [x], guards, stack, pre)
         elif e == "if":
-            yield x, loops, guards, stack
-            yield from walk_all(x["then"], loops, guards + [x["cond"]], stack)
-            yield from walk_all(x["else"], loops, guards + [sym.unop("!", x["cond"])], stack)
+            ts, es = x.get("then_status", "fall"), x.get("else_status", "fall")
+            if _is_assert_failure(x["then"]) and not x["else"]:
+                pre = pre + [sym.unop("!", x["cond"])]
+                continue
+            if _is_assert_failure(x["else"]) and not x["then"]:
+                pre = pre + [x["cond"]]
+                continue
+            yield x, loops, guards, stack, pre
+            yield from walk_all(x["then"], loops, guards + [x["cond"]], stack, pre)
+            yield from walk_all(x["else"], loops, guards + [sym.unop("!", x["cond"])], stack, pre)
+            # a branch that leaves (continue / break / return / abort) guards everything that follows it
+            if ts != "fall" and es == "fall":
+                guards = guards + [sym.unop("!", x["cond"])]
+            elif es != "fall" and ts == "fall":
+                guards = guards + [x["cond"]]
         elif e == "inlined":
-            yield from walk_all(x["body"], loops, guards, stack + [x["name"]])
+            yield from walk_all(x["body"], loops, guards, stack + [x["name"]], pre)
         else:
-            yield x, loops, guards, stack
+            yield x, loops, guards, stack, pre
 
 
 def asm_to_pieces(x):
@@ -81,15 +100,15 @@ def pieces(v, fn, hooks=None, args=None):
     hooks = hooks or InlineLib()
     eff, st, ex = run_function(v, fn, hooks=hooks, args=args)
     out = []
-    for x, loops, guards, stack in walk_all(eff):
+    for x, loops, guards, stack, pre in walk_all(eff):
         e = x["e"]
         if e == "store":
             out.append({"kind": "store", "loops": loops, "guards": guards, "lv": x["lv"], "op": x["op"], "val": x["val"],
-                        "line": x["l"], "stack": stack, "t": x.get("t", ""), "ctor_init": x.get("ctor_init", False)})
+                        "line": x["l"], "stack": stack, "pre": pre, "t": x.get("t", ""), "ctor_init": x.get("ctor_init", False)})
         elif e == "asm":
             ps = asm_to_pieces(x)
             if ps is None:
-                out.append({"kind": "asm", "loops": loops, "guards": guards, "eff": x, "line": x["l"], "stack": stack})
+                out.append({"kind": "asm", "loops": loops, "guards": guards, "eff": x, "line": x["l"], "stack": stack, "pre": pre})
             else:
                 for p in ps:
                     p = dict(p)
@@ -97,18 +116,23 @@ def pieces(v, fn, hooks=None, args=None):
                     p["loops"] = loops + p["loops"]
                     p["guards"] = guards
                     p["stack"] = stack
+                    p["pre"] = pre
                     out.append(p)
         elif e == "call":
-            out.append({"kind": "call", "loops": loops, "guards": guards, "eff": x, "line": x["l"], "stack": stack,
+            out.append({"kind": "call", "loops": loops, "guards": guards, "eff": x, "line": x["l"], "stack": stack, "pre": pre,
                         "name": x["name"], "args": x["args"]})
         elif e in ("while", "unknown"):
-            out.append({"kind": e, "loops": loops, "guards": guards, "eff": x, "line": x["l"], "stack": stack})
+            out.append({"kind": e, "loops": loops, "guards": guards, "eff": x, "line": x["l"], "stack": stack, "pre": pre})
         elif e == "return":
-            out.append({"kind": "return", "loops": loops, "guards": guards, "val": x.get("val"), "line": x["l"], "stack": stack})
+            out.append({"kind": "return", "loops": loops, "guards": guards, "val": x.get("val"), "line": x["l"], "stack": stack, "pre": pre})
         elif e == "local":
-            out.append({"kind": "local", "loops": loops, "guards": guards, "eff": x, "line": x["l"], "stack": stack,
+            out.append({"kind": "local", "loops": loops, "guards": guards, "eff": x, "line": x["l"], "stack": stack, "pre": pre,
                         "name": x["name"], "id": x["id"], "op": x["op"], "val": x["val"]})
     return out, eff
+
+
+def _unused():
+    pass
 
 
 def loop_sig(lp):
